@@ -22,7 +22,9 @@ POSTFIXES = ["a", "a_1", "1", "_", "b", "ol", "en", "x_y_z", "A", "a1", "meta", 
              "p" * 120,
              # postfixes are arbitrary strings: punctuation, blanks, path separators, unicode,
              # names that differ only in such characters, a non-string postfix
-             "0.5", "05", "-1", "a b", "ab", "a-b", "a.b", "x/y", "\u00e9", "a.npy", " ", "A*", "..", 9]
+             "0.5", "05", "-1", "a b", "ab", "a-b", "a.b", "x/y", "\u00e9", "a.npy", " ", "A*", "..", 9,
+             # falsy postfixes that are not None (the documented switch is `postfix is not None`)
+             "", 0.0]
 
 
 # --------------------------------------------------------------------------- generation
@@ -443,9 +445,9 @@ def shrink_candidates(scn):
 
 RUNS = {"quick": 4000, "thorough": 150000}
 RULE = ("one evaluation = one seeded history of 3-40 store operations over 1-4 NPZ archives in a "
-        "private directory: save under one of 37 postfix names (prefixes / suffixes of each other, "
+        "private directory: save under one of 39 postfix names (prefixes / suffixes of each other, "
         "digits, underscores, names equal to the archive's own key stems, punctuation, blanks, "
-        "path separators, unicode, names differing only in such characters, a non-string postfix), whole-file saves, loads "
+        "path separators, unicode, names differing only in such characters, a non-string postfix, the falsy non-None postfixes '' and 0.0), whole-file saves, loads "
         "through Mineral.from_file and Mineral.load (into existing objects whose phase, fabric, "
         "regime, grain count and history differ), restarts (all in-memory objects dropped), rejected "
         "operations at arbitrary points (unequal snapshot counts, array sizes != grain count in the "
